@@ -10,7 +10,9 @@ import Driver.Util
   hide <V> <out_stream V> <err_stream V>  → a+b | - | ValueError
   cwd <list of paths>                     → chars of Context.cwd
   ctx <prompt chars> <sudo.user: N|S…> <tokens joined by ','> → events, raised flag and final stacks
-      tokens: R<cmd> run | Q<cmd> run that raises | U<cmd>/<user kwarg A|N|S…>/<env names> sudo | O observe | X raise
+      tokens: R<cmd> run | Q<cmd> run that raises | U<cmd>/<user kwarg A|N|S…>/<env names> sudo | O observe
+              | X<k> raise (k: 0 Exception, 1 KeyboardInterrupt, 2 SystemExit, 3 GeneratorExit)
+              | GC<path> / GP<prefix> the same blocks held open by a suspended generator and left by close()
               | C<path> open cd | P<prefix> open prefix | Y open try | E close block
   resp <password kwarg A|N|S…> <sudo.password N|S…> → chars written by the sudo auto-responder -/
 open Inv Inv.Generated Drv
@@ -83,15 +85,27 @@ def encStrs (xs : List Str) : String := ";".intercalate (xs.map (fun x => "e" ++
 
 instance : Inhabited Prog := ⟨.done⟩
 
+def decKind (s : String) : ExcKind :=
+  if s == "1" then .keyboardInterrupt else if s == "2" then .systemExit else if s == "3" then .generatorExit
+  else if s == "4" then .failure else .exception
+
+def showKind : Option ExcKind → String
+  | none => "-"
+  | some .exception => "Exception"
+  | some .keyboardInterrupt => "KeyboardInterrupt"
+  | some .systemExit => "SystemExit"
+  | some .generatorExit => "GeneratorExit"
+  | some .failure => "Failure"
+
 partial def parseSeq : List String → Prog × List String
   | [] => (.done, [])
   | t :: rest =>
     let body := (t.drop 1).toString
     if t == "E" then (.done, rest)
     else if t == "O" then let (k, r) := parseSeq rest; (.obs k, r)
-    else if t == "X" then let (_, r) := parseSeq rest; (.raise, r)
+    else if t.startsWith "X" then let (_, r) := parseSeq rest; (.raise (decKind body), r)
     else if t.startsWith "R" then let (k, r) := parseSeq rest; (.run (decChars body) k, r)
-    else if t.startsWith "Q" then let (_, r) := parseSeq rest; (.run (decChars body) .raise, r)
+    else if t.startsWith "Q" then let (_, r) := parseSeq rest; (.run (decChars body) (.raise .failure), r)
     else if t.startsWith "U" then
       let (k, r) := parseSeq rest
       match body.splitOn "/" with
@@ -100,14 +114,14 @@ partial def parseSeq : List String → Prog × List String
           if u == "A" then none else if u == "N" then some none else some (some (decChars (u.drop 1).toString))
         (.sudo (decChars c) ukw (decStrs (e.replace ":" ";")) k, r)
       | _ => (.done, r)
-    else if t.startsWith "C" then
+    else if t.startsWith "C" || t.startsWith "GC" then
       let (b, r1) := parseSeq rest
       let (k, r2) := parseSeq r1
-      (.cd (decChars body) b k, r2)
-    else if t.startsWith "P" then
+      (.cd (decChars (if t.startsWith "G" then (t.drop 2).toString else body)) b k, r2)
+    else if t.startsWith "P" || t.startsWith "GP" then
       let (b, r1) := parseSeq rest
       let (k, r2) := parseSeq r1
-      (.pfx (decChars body) b k, r2)
+      (.pfx (decChars (if t.startsWith "G" then (t.drop 2).toString else body)) b k, r2)
     else if t == "Y" then
       let (b, r1) := parseSeq rest
       let (k, r2) := parseSeq r1
@@ -119,7 +133,7 @@ def showEv : Ev → String
   | .stacks p c => "s" ++ encStrs p ++ "/" ++ encStrs c
 
 def showExec (o : ExecOut) : String :=
-  "|".intercalate (o.log.map showEv) ++ " raised=" ++ b01 o.raised ++ " final=" ++ encStrs o.ctx.prefixes ++ "/" ++ encStrs o.ctx.cwds
+  "|".intercalate (o.log.map showEv) ++ " raised=" ++ showKind o.raised ++ " final=" ++ encStrs o.ctx.prefixes ++ "/" ++ encStrs o.ctx.cwds
 
 def step (line : String) : String :=
   match line.splitOn " " with
